@@ -82,11 +82,11 @@ def gen(run):
             if d:
                 d[rng.randrange(len(d))] = rng.randrange(256)
         yield P.case_dense(rng.choice(["cursor", "strict"]), rng.choice([P.DEFAULT_MAX, 64, 2**30]), rng.choice([None, None, 5, 40]), bytes(d)), "mp4-splice-mutate"
-    # many top-level boxes (a loop counter, a periodic yield, a per-box allocation would show only here): 100 .. 3000 empty free / skip /
+    # many top-level boxes (a loop counter, a periodic yield, a per-box allocation would show only here): 100 .. 65537 (thorough: 200000) empty free / skip /
     # unknown boxes around ftyp, moov, mdat, valid and truncated
     import mp4gen as G0
     m1 = P.simple_moov([(4, [20, 30])])
-    for nb in ((100, 127, 128, 129, 256, 1000) if quick else (100, 127, 128, 129, 255, 256, 257, 511, 512, 1000, 3000)):
+    for nb in ((100, 127, 128, 129, 256, 1000, 65537) if quick else (100, 127, 128, 129, 255, 256, 257, 511, 512, 1000, 3000, 65535, 65536, 65537, 200000)):
         fill = b"".join(G0.box(rng.choice([b"free", b"skip"]), b"") for _ in range(nb))
         for lay in (P.F() + m1 + fill + G0.box(b"mdat", b"abcdefg"), P.F() + fill + G0.box(b"mdat", b"abc") + m1,
                     fill + P.F() + G0.box(b"mdat", b"abc") + fill + m1, P.F() + G0.box(b"mdat", b"abc") + fill + m1[:-3]):
